@@ -165,6 +165,15 @@ Theorem C04_rfc_per_kex :
 Proof. exact rfc_per_kex. Qed.
 Print Assumptions C04_rfc_per_kex.
 
+(* for every kex of Transport._kex_info the digest length of the hash _compute_key will select (the class's
+   hash_algo, else the sha1 fallback) is the one the kex METHOD specifies (hand-written RFC table by name):
+   a class that loses its hash_algo and silently derives keys with sha1 breaks this *)
+Theorem C04_kex_hash_spec :
+  forall name declared,
+    In (name, declared) gen_kex_hashes -> spec_kex_hash_len name = Some (kex_hash_len declared).
+Proof. exact kex_hash_spec. Qed.
+Print Assumptions C04_kex_hash_spec.
+
 (* non-vacuity: a concrete hash of fixed positive length, a concrete K/H/session id; the model
    computes a 40-byte key from a 3-byte hash (14 turns of the loop), and the keys of the two
    directions differ *)
